@@ -132,6 +132,60 @@ func main() {
 		return st.pairs.Load() - before, ok
 	})
 
+	// ---------- many-components family ----------
+	// axis 1: every component count 0..K (all pairs, all prefixes); axis 2: the counts at which a
+	// TLV size / hashed size / in-memory size of the name crosses a threshold (singles only)
+	manyK, manyBig, manyURI := 64, 1100, 1100
+	if thorough {
+		manyK, manyBig, manyURI = 140, 32771, 8200
+	}
+	mNames := manyCompPairUniverse(manyK)
+	MC := buildUniverse("many-components", 2, mNames, false)
+	MC.markSeen(seen)
+	run(fmt.Sprintf("pairs (many components, k<=%d, %d names)", manyK, len(mNames)), func() (int64, bool) {
+		before := st.pairs.Load()
+		_, ok := MC.singles(col, &st, deadline)
+		_, ok2 := MC.pairs(col, &st, smp.of("many", 2), deadline, false)
+		_, ok3 := enum.Range(int64(len(mNames)), deadline, func(i int64) { checkNameURI(col, &us, 2<<60|1<<50|i, mNames[i], "many-components") })
+		MC.addSeen(seen)
+		return st.pairs.Load() - before, ok && ok2 && ok3
+	})
+	var bigMany []oname
+	for _, k := range sizeThresholdCounts(manyBig) {
+		if k <= manyK {
+			continue
+		}
+		for _, sh := range manyShapes() {
+			if sh.typ == 8 && sh.indexed || k <= 1100 && !sh.indexed && sh.valLen == 1 {
+				bigMany = append(bigMany, manyName(sh, k, false))
+			}
+		}
+	}
+	var bigManyComps atomic.Int64
+	run(fmt.Sprintf("singles (many components at size thresholds, %d names, k<=%d)", len(bigMany), manyBig), func() (int64, bool) {
+		return enum.Range(int64(len(bigMany)), deadline, func(i int64) {
+			o := bigMany[i]
+			checkSingle(col, 2, 1<<51|i, o)
+			// against its own longest proper prefix and a last-byte variant: Equal/Compare/IsPrefix/Hash
+			var as aliasStats
+			alt := append(oname{}, o...)
+			lv := append([]byte(nil), o[len(o)-1].val...)
+			if len(lv) > 0 {
+				lv[len(lv)-1] ^= 0x80
+			} else {
+				lv = []byte{0}
+			}
+			alt[len(alt)-1] = ocomp{o[len(o)-1].typ, lv}
+			rp := func() any { return map[string]any{"kind": "many", "a": o.JSON()} }
+			nameLawsPlain(col, &as, 2<<60|1<<51|i, o, o[:len(o)-1], rp)
+			nameLawsPlain(col, &as, 2<<60|1<<51|i, o, alt, rp)
+			if len(o) <= manyURI {
+				checkNameURI(col, &us, 2<<60|1<<51|i, o, "many-components")
+			}
+			bigManyComps.Add(int64(len(o)))
+		})
+	})
+
 	xNames, _ := dedupe(allSeqs(exoticComps(), 2))
 	X := buildUniverse("exotic-types", 2, xNames, false)
 	X.markSeen(seen)
@@ -356,6 +410,7 @@ func main() {
 		"name_pairs":                     st.pairs.Load(),
 		"component_pairs":                compPairs.Load(),
 		"triples":                        tripleCount,
+		"many_components_family":         map[string]any{"pair_universe_names": len(mNames), "max_k_all_pairs": manyK, "threshold_names": len(bigMany), "max_k_threshold": manyBig, "threshold_components_total": bigManyComps.Load(), "threshold_counts": sizeThresholdCounts(manyBig)},
 		"aliased_operand_pairs":          map[string]int64{"name_pairs": as.namePairs.Load(), "component_pairs": as.compPairs.Load(), "equal_true": as.equalTrue.Load(), "isprefix_true": as.prefixTrue.Load()},
 		"compare_outcomes":               map[string]int64{"less": st.cmpLt.Load(), "equal": st.cmpEq.Load(), "greater": st.cmpGt.Load()},
 		"pairs_decided_by":               map[string]int64{"type": st.byType.Load(), "length": st.byLen.Load(), "value": st.byVal.Load(), "prefix": st.byPrefix.Load()},
